@@ -238,10 +238,12 @@ def header_reads(ctx):
                 probs.append('length is %s, not 4' % (U(c.args[2]) if len(c.args) > 2 else '?'))
             okoff = False
             if isinstance(off, ast.BinOp) and isinstance(off.op, ast.Add):
-                parts = {U(off.left), U(off.right)}
-                idx = [p for p in parts if p.replace(' ', '') in ('4*index', 'index*4')]
-                base = [p for p in parts if p not in idx]
-                if idx and base and loop and base[0] in loop[0][1]:
+                from .c04 import _from_template
+                sides = [off.left, off.right]
+                idx = [p for p in sides if U(p).replace(' ', '') in ('4*index', 'index*4')]
+                base = [p for p in sides if p not in idx]
+                # the base is a value of the header-word template (a FileOffset, tested on this path)
+                if idx and base and ((loop and U(base[0]) in loop[0][1]) or _from_template(f, base[0])):
                     okoff = True
             if not okoff:
                 probs.append('offset `%s` is not <stored array offset> + 4*index' % U(off))
@@ -273,6 +275,15 @@ def header_reads(ctx):
                             continue
                         if isinstance(t, ast.BoolOp) and isinstance(t.op, ast.Or) and \
                                 all(U(v) in ('load_all_headers', 'not self.structured') for v in t.values):
+                            return True
+                    # .. or as a falsified conjunction: not (structured and not load_all_headers)
+                    if a[0] == 'F' and isinstance(a[1], str) and ' and ' in a[1]:
+                        try:
+                            t = ast.parse(a[1], mode='eval').body
+                        except SyntaxError:
+                            continue
+                        if isinstance(t, ast.BoolOp) and isinstance(t.op, ast.And) and \
+                                all(U(v) in ('self.structured', 'not load_all_headers') for v in t.values):
                             return True
                 return False
             bad = [p for p in paths if not allowed(p)]
